@@ -247,7 +247,7 @@ Proof.
           assert (O : negb (ie_off e0 =? 0) = true) by (apply negb_true_iff, N.eqb_neq; lia).
           assert (V : size_valid (ie_size e0) = true) by (apply size_valid_pos; lia).
           rewrite O, V. simpl. rewrite (fi_old _ _ FI _ _ Hf), Hsz, Z.eqb_refl. left. symmetry. exact Hc.
-        * destruct (Cnone id Z1 G0) as [Hc|[p [Hc [Hpos Hdrop]]]]; [left; symmetry; exact Hc|].
+        * destruct (Cnone id (Z1 id) G0) as [Hc|[p [Hc [Hpos Hdrop]]]]; [left; symmetry; exact Hc|].
           right. split; [reflexivity|]. exists p. split; [exact Hc|].
           destruct (content_rec _ _ _ I1 Hc) as [r [Hin ->]]. simpl in Hpos.
           rewrite E1 in Hin. destruct (exec_provenance vt h1 cinit r cinv_init Hin) as [Hr|[Hz|[n0 [Hev Hn]]]].
